@@ -192,6 +192,14 @@ func (m *mux) Open(id ConnID) (net.Conn, error) {
 	m.connLock.Lock()
 	defer m.connLock.Unlock()
 
+	// Close() marks the Mux closed while holding connLock. A connection
+	// opened after that would never be closed by anyone: refuse it.
+	select {
+	case <-m.doneC:
+		return nil, fmt.Errorf("multiplexer is closed: %w", m.error())
+	default:
+	}
+
 	c, ok := m.conns[id]
 	if !ok {
 		c = &conn{
